@@ -394,14 +394,14 @@ def _cc_id(ks: np.ndarray) -> int:
     return int(round(float(vals[0].real)))
 
 
-def _spelling(W: World, main: pathlib.Path, fid: int, rng: pyrandom.Random, allow_other_dir: bool):
+def _spelling(W: World, main: pathlib.Path, fid: int, rng: pyrandom.Random, allow_other_dir: bool, ext: str = ".h5"):
     """one way of writing the name of file `fid` of directory `main` -> (object for filenames_filter, protocol code,
     normalised id, Path it denotes).  Normalised id = 1000 * class + fid where the class says which `pathlib.Path` object the
     spelling denotes (0: main/name, 1: relative to the working directory, 2: through a symlinked directory, 3: with a `..`
     component, 4: the file of the same name in another directory); code = 10000 * form + normalised id, where two entries
     have the same form iff they are equal *as given* (all Path objects of a class are equal; strings are equal only when
     identical)."""
-    name = f"vol{fid:03d}.h5"
+    name = f"vol{fid:03d}{ext}"
     classes = [0, 0, 0, 1, 2, 3] + ([4] if allow_other_dir else [])
     c = rng.choice(classes) if fid != MISSING and main == W.main else rng.choice([0, 0, 3])
     base = {0: str(main), 1: os.path.relpath(main), 2: str(W.dir / "mainlink"), 3: str(main / ".." / main.name),
@@ -498,7 +498,7 @@ def _gen_dataset_case(rng: pyrandom.Random, W: World, spellings: bool = False):
         kw.update(data_root=root, crop_outer_slices=bool(crop), kspace_context=ctx_arg)
     pool_ids = ids_all + [MISSING] + alias_ids
     for a in alias_ids:
-        nmap[a] = W.nx[a % 1000] if a // 1000 == 4 else nmap[a % 1000]
+        nmap[a] = (W.nx[a % 1000] if nmap[a % 1000] > 0 else -1) if a // 1000 == 4 else nmap[a % 1000]
     bound = sum(max(nmap[f], 0) for f in pool_ids) * (2 if (flt and len(set(flt)) < len(flt)) or mode == 2 else 1)
     bound = min(bound, 60)
     idxs = list(range(-bound - 1, bound + 1))
@@ -573,6 +573,7 @@ def _cmr_decode(ks: np.ndarray, ctx) -> list[int]:
 def _gen_cmr_case(rng: pyrandom.Random, W: World):
     ctx = rng.choice([None, "slice", "time"])
     ids_all = sorted(W.cmr_shape)
+    idmap: dict[str, int] = {}
     lists: list[list[int]] = []
     root_given = 1
     r = rng.random()
@@ -583,9 +584,15 @@ def _gen_cmr_case(rng: pyrandom.Random, W: World):
     elif r < 0.8:
         mode = 1
         ids = rng.sample(ids_all + [MISSING], rng.randint(0, 5))
-        if ids and rng.random() < 0.15:
+        if ids and rng.random() < 0.4:
             ids.insert(rng.randrange(len(ids) + 1), rng.choice(ids))        # a repeated name
-        kw = dict(data_root=W.cmr, filenames_filter=[W.cmr / f"vol{f:03d}.mat" for f in ids])
+        if rng.random() < 0.5:      # mixed spellings of the entries (str / Path, `//`, `/./`, a `..` component)
+            sp = [_spelling(W, W.cmr, f, rng, False, ".mat") for f in ids]
+            kw = dict(data_root=W.cmr, filenames_filter=[o for o, _, _, _ in sp])
+            ids = [c for _, c, _, _ in sp]
+            idmap = {str(pth): nid for _, _, nid, pth in sp}
+        else:
+            kw = dict(data_root=W.cmr, filenames_filter=[W.cmr / f"vol{f:03d}.mat" for f in ids])
     else:
         mode = 2
         chosen = rng.sample(W.cmr_list_files, rng.randint(1, 2))
@@ -597,14 +604,15 @@ def _gen_cmr_case(rng: pyrandom.Random, W: World):
             kw["filenames_lists_root"] = W.lists
     kw.update(kspace_context=ctx, compute_mask=rng.random() < 0.3)
     shp = {**W.cmr_shape, MISSING: (-1, -1)}
-    members = ids if mode != 2 else [f for l in lists for f in l]
-    total = sum({None: a * b, "slice": a, "time": b}[ctx] for a, b in (shp[f] for f in set(members)) if a > 0)
+    members = [c % 10000 for c in ids] if mode != 2 else [f for l in lists for f in l]
+    total = sum({None: a * b, "slice": a, "time": b}[ctx] for a, b in (shp[f % 1000] for f in set(members)) if a > 0)
     idxs = list(range(-total - 1, total + 1))
     pool_ids = ids_all + [MISSING]
     groups = [[{None: 0, "slice": 1, "time": 2}[ctx], mode, root_given], pool_ids, [shp[f][0] for f in pool_ids],
               [shp[f][1] for f in pool_ids], ids, idxs] + lists
     return {"kw": kw, "ctx": ctx, "groups": groups, "idxs": idxs,
-            "bucket": f"cmr/ctx-{ctx}/{['listing', 'filter', 'lists'][mode]}", "nontrivial": len(members) >= 2}
+            "bucket": f"cmr/ctx-{ctx}/{['listing', 'filter', 'lists'][mode]}" + ("/spellings" if idmap else ""),
+            "nontrivial": len(members) >= 2, "idmap": idmap}
 
 
 def impl_cmr(case: dict):
@@ -616,7 +624,12 @@ def impl_cmr(case: dict):
         except ValueError as e:
             return "err " + err_name(e)
         vi = list(ds.volume_indices.items())
-        groups = [[_name_id(f) for f, _ in ds.data], [int(s) for _, s in ds.data], [_name_id(f) for f, _ in vi],
+        idmap = case.get("idmap", {})
+
+        def pid(f):
+            return idmap.get(str(f), _name_id(f))
+
+        groups = [[pid(f) for f, _ in ds.data], [int(s) for _, s in ds.data], [pid(f) for f, _ in vi],
                   [r.start for _, r in vi], [r.stop for _, r in vi]]
         for i in case["idxs"]:
             try:
@@ -624,7 +637,7 @@ def impl_cmr(case: dict):
             except IndexError:
                 groups.append([-1, 2])
                 continue
-            groups.append([_name_id(it["filename"]), int(it["slice_no"])] + _cmr_decode(it["kspace"], case["ctx"]))
+            groups.append([pid(it["filename"]), int(it["slice_no"])] + _cmr_decode(it["kspace"], case["ctx"]))
         return ok(*groups)
     return run
 
@@ -1397,6 +1410,42 @@ def _oracle_phase2(ctx: Ctx, deep: bool):
                             f"a file named twice in {what}: its slices are in the dataset twice but volume_indices keeps one "
                             f"range per name, so the ranges no longer partition 0..len-1",
                             {"op": "duplicate", "via": what, "len": len(ds), "ranges": _mapping(ds)[1]})
+    # (b') one file mentioned in several spellings (str / Path, redundant separators, `./`), and spellings that denote other
+    #      Path objects (relative, symlinked directory, `..`, same name in another directory): entries equal as
+    #      `pathlib.Path(_)` are one volume, all others their own volume; the ranges partition 0..len-1 in every case
+    m = W.main
+    a, b = "vol003.h5", "vol004.h5"
+    rel = os.path.relpath(m)
+    mixes = [
+        ("str+Path", [str(m / a), m / a, m / b]),
+        ("Path+str", [m / b, m / a, str(m / a)]),
+        ("double-separator", [m / a, f"{m}//{a}", str(m / b), f"{m}//{b}"]),
+        ("dot-component", [f"{m}/./{a}", str(m / a), m / b]),
+        ("trailing-separator", [f"{m}/{a}/", m / a]),
+        ("relative+absolute", [m / a, pathlib.Path(rel) / a, f"./{rel}/{a}", f"{rel}/{a}"]),
+        ("symlinked-directory", [W.dir / "mainlink" / a, m / a, str(W.dir / "mainlink" / a)]),
+        ("dotdot-component", [m / ".." / "main" / a, m / a, f"{m}/../main/{a}"]),
+        ("same-name-other-directory", [m / a, W.extra / a, str(W.extra / a)]),
+    ]
+    cm_a = "vol304.mat"
+    for what, entries in mixes + [("cmr:str+Path+double-separator", [W.cmr / cm_a, str(W.cmr / cm_a), f"{W.cmr}//{cm_a}",
+                                                                     W.cmr / "vol302.mat"])]:
+        ctx.count(("spellings", what), True, bucket="oracle/duplicate-names/spellings")
+        ds = CMRxReconDataset(data_root=W.cmr, filenames_filter=entries) if what.startswith("cmr:") else \
+            H5SliceData(root=m, filenames_filter=entries, kspace_context=1)
+        want = [str(x) for x in dict.fromkeys(pathlib.Path(e) for e in entries)]
+        got = [str(f) for f in ds.volume_indices]
+        owners = [sum(1 for r in ds.volume_indices.values() if i in r) for i in range(len(ds))]
+        if not _partition_ok(ds) or got != want or any(o != 1 for o in owners) or \
+                any(str(ds[i]["filename"]) != next(str(f) for f, r in ds.volume_indices.items() if i in r) for i in range(len(ds))
+                    if owners[i] == 1):
+            yield Violation("duplicate-spellings-ranges-not-partition",
+                            f"one file named in several spellings ({what}): entries that are the same pathlib.Path must be one "
+                            f"volume (first kept) and the ranges must partition 0..len-1; got len {len(ds)}, ranges "
+                            f"{[(pathlib.Path(f).name, r.start, r.stop) for f, r in ds.volume_indices.items()]}",
+                            {"op": "spellings", "case": what, "entries": [f"{type(e).__name__}:{e}" for e in entries],
+                             "expected_volumes": want, "observed_volumes": got, "len": len(ds),
+                             "indices_without_exactly_one_volume": [i for i, o in enumerate(owners) if o != 1][:20]})
     # (c) the other classes, directly: partition, designation, content
     for t in range(ctx.budget(40, 500)):
         case = _gen_dataset_case(rng, W)
@@ -1414,8 +1463,10 @@ def _oracle_phase2(ctx: Ctx, deep: bool):
         else:
             sel_ids, ordered = sorted(_name_id(p) for p in os.listdir(root) if p.endswith(".h5")), False
         if "regex_filter" in kw:
-            sel_ids = [f for f in sel_ids if re.match(kw["regex_filter"], str(pathlib.Path(root) / f"vol{f:03d}.h5"))]
-        sel_ids = list(dict.fromkeys(sel_ids))                 # a file is one volume: repeated names count once (first kept)
+            sel_ids = [f for f in sel_ids if re.match(kw["regex_filter"], str(pathlib.Path(root) / f"vol{f % 1000:03d}.h5"))]
+        # a file is one volume: repeated names count once (first kept); ids >= 1000 are other Path objects (a `..` spelling in a
+        # .lst file) and therefore volumes of their own, reported under the same file name
+        sel_ids = [f % 1000 for f in dict.fromkeys(sel_ids)]
         nn = W.cc_n if case["cls"] == "calgary" else W.n
         sel_ids = [f for f in sel_ids if nn.get(f, -1) > 0]
         try:
@@ -2064,6 +2115,9 @@ def replay(rep: dict) -> bool:
             except exc:
                 pass
         return False
+    if op == "spellings":
+        return any(v.replay.get("op") == "spellings" and v.replay.get("case") == rep.get("case")
+                   for v in _oracle_phase2(Ctx(PROP, "quick", 0), False))
     if op in ("listing-order", "duplicate", "build", "class", "cmr", "concat-growing", "instances", "hashseed"):
         ctx = Ctx(PROP, "quick", 0)
         want = {"listing-order": "directory-listing-order-unsorted", "duplicate": "duplicate-filenames-ranges-not-partition"}.get(op)
